@@ -161,3 +161,17 @@ Theorem C19_Known_role_split_refuted :
             map to_sresult (run_history [] h) <> spec_history [] h.
 Proof. exact Known_role_split_refuted. Qed.
 Print Assumptions C19_Known_role_split_refuted.
+
+(* ---- tie to the source: the model's constants are those of uptime.rs NOW (Gen/Consts.v is regenerated
+   from /repo on every run; an edited constant breaks this obligation) ---- *)
+From HN Require Gen.Consts Proofs.ConstTieUptime.
+Theorem C19_constants_match_source :
+  HN.Model.Uptime.MIN_TWAIT = Consts.src_uptime_MIN_TWAIT /\ HN.Model.Uptime.MAX_TWAIT = Consts.src_uptime_MAX_TWAIT /\
+  HN.Model.Uptime.MIN_TS_DIFF = Consts.src_uptime_MIN_TS_DIFF /\ HN.Model.Uptime.TSTAMP_GRACE = Consts.src_uptime_TSTAMP_GRACE /\
+  (HN.Model.Uptime.MAX_FINAL_HZ * 1000 = Consts.src_uptime_MAX_FINAL_HZ_milli)%Z /\
+  (HN.Model.Uptime.MIN_FINAL_HZ * 1000 = Consts.src_uptime_MIN_FINAL_HZ_milli)%Z /\
+  (HN.Model.Uptime.GUESS_HZ_1K * 1000 = Consts.src_uptime_GUESS_HZ_1K_milli)%Z /\
+  (HN.Model.Uptime.GUESS_HZ_100 * 1000 = Consts.src_uptime_GUESS_HZ_100_milli)%Z /\
+  (10 * Consts.src_uptime_GUESS_TOLERANCE_milli = 1000)%Z.
+Proof. exact ConstTieUptime.uptime_constants_tie. Qed.
+Print Assumptions C19_constants_match_source.
